@@ -415,6 +415,14 @@ func (r *reader) readIndexData(toc *indexTOC) (*indexData, error) {
 			return nil, err
 		}
 		d.repos = fromSizedDeltas16(blob, nil)
+		if len(d.repos) != len(d.fileBranchMasks) {
+			return nil, fmt.Errorf("got %d repository ids for %d documents", len(d.repos), len(d.fileBranchMasks))
+		}
+		for _, r := range d.repos {
+			if int(r) >= len(d.repoMetaData) {
+				return nil, fmt.Errorf("document of repository %d, have %d repositories", r, len(d.repoMetaData))
+			}
+		}
 	} else {
 		// every document is for repo index 0 (default value of uint16)
 		d.repos = make([]uint16, len(d.fileBranchMasks))
@@ -465,6 +473,12 @@ func (r *reader) parseMetadata(metaData simpleSection, repoMetaData simpleSectio
 		}
 	}
 
+	for _, r := range repos {
+		if r == nil {
+			return nil, &md, errors.New("repository metadata has a null entry")
+		}
+	}
+
 	if md.ID == "" {
 		if len(repos) == 0 {
 			return nil, nil, ErrEmptyShard
@@ -508,13 +522,13 @@ func (d *indexData) verify() error {
 	// This is not an exhaustive check: the postings can easily
 	// generate OOB acccesses, and are expensive to check, but this lets us rule out
 	// other sources of OOB access.
-	n := len(d.fileNameIndex)
-	if n == 0 {
+	n := len(d.fileBranchMasks)
+	if n == 0 && len(d.fileNameIndex) == 0 && len(d.boundaries) == 0 && len(d.docSectionsIndex) == 0 && len(d.newlinesIndex) == 0 {
 		return nil
 	}
 
-	n--
 	for what, got := range map[string]int{
+		"file names":        len(d.fileNameIndex) - 1,
 		"boundaries":        len(d.boundaries) - 1,
 		"branch masks":      len(d.fileBranchMasks),
 		"doc section index": len(d.docSectionsIndex) - 1,
